@@ -2,6 +2,7 @@ CONSTANTS
   Dev = {}
   Alphabet <- AlphaTok
   MaxLen = 3
+  Prune = FALSE
   DepthProbe = {1, 256}
 SPECIFICATION MSpec
 INVARIANTS M_AgreesWithImpl M_AcceptIffJson M_DepthCounter M_Cursor M_Balanced
